@@ -5,7 +5,7 @@
    specification of "a valid host:port that net.Dial accepts syntactically".
    The transport choice and the checker are modelled as REPAIRED (a scheme is
    ws / wss in any letter case followed by "://"; the checker normalises with
-   ensurePort + net.SplitHostPort).
+   ensurePort + net.SplitHostPort; an address with an empty port gets the default port).
    Strings are byte strings (str = list N, one element per byte).
    Executable definitions only. *)
 From Coq Require Import List ZArith NArith Bool.
@@ -74,15 +74,23 @@ Definition itoa (z : Z) : str :=
   if z <? 0 then c_minus :: utoa (Z.to_N (- z)) else utoa (Z.to_N z).
 
 (* ---- ensurePort (network.go) ---- *)
+(* strings.HasSuffix(addr, ":") *)
+Definition ends_colon (s : str) : bool :=
+  match s with [] => false | _ => N.eqb (last s 0%N) c_colon end.
+
+(* REPAIRED (hunt2 C20/f1): a trailing ':' with nothing after it ("host:", "[::1]:") gives
+   no port - the default is appended (the unrepaired code returned such an address
+   unchanged and net.Dial made TCP port 0 of the empty port). *)
 Definition ensure_port (addr : str) (port : Z) : str :=
   if has_prefix [c_lbr] addr then
     if last_index c_colon addr <=? last_index c_rbr addr
     then addr ++ c_colon :: itoa port
+    else if ends_colon addr then addr ++ itoa port
     else addr
   else
     match count c_colon addr with
     | O => addr ++ c_colon :: itoa port
-    | S O => addr
+    | S O => if ends_colon addr then addr ++ itoa port else addr
     | _ => c_lbr :: addr ++ c_rbr :: c_colon :: itoa port
     end.
 
